@@ -28,6 +28,8 @@ var c01Families = []family{
 	{`{ nodes { ... on User { best { id } } link { id name age } ... on User { link { best { id } } } ... on Item { link { boss { id } } } } }`, nil},
 	{`query($v1: Boolean!) { me { pet { ... on Pet { __typename } ...PF } } node(id: "2") { ... on Node { id } ...NF @include(if: $v1) } } fragment PF on Pet { ... on User { name } ... on Item { title } } fragment NF on Node { __typename ... on Pet { ... on User { age } } }`, []string{"v1"}},
 	{`query($v1: Boolean!) { me { best { id } boss { id age } friends { id best @include(if: $v1) { id } } pet { __typename } items { title owner { id } } } }`, []string{"v1"}},
+	// lists of scalars: non-null elements in a nullable and in a non-null list, nullable elements
+	{`query($v1: Boolean!) { me { id marks stamps @include(if: $v1) } odds users { stamps } }`, []string{"v1"}},
 }
 
 var c01Docs []*ast.QueryDocument
@@ -59,11 +61,15 @@ func Harness_C01_exec() {
 	op := doc.Operations[0]
 	got := runOp(w, doc, op, vars)
 	want := ref.Execute(pSchema, doc, op, vars, w)
-	zzsym.Assert(len(got.resps) == 1, "a plain operation yields exactly one response")
-	zzsym.Assert(got.data == want.Data, "data equals the reference execution")
-	zzsym.Assert(sameStrings(got.errs, want.Errors), "one error per originating failure, at the failing position's path")
-	zzsym.Assert(w.recovers == 0, "the recover hook is not invoked when nothing panicked")
 	zzsym.Event("data", got.data)
 	zzsym.Event("errors", strings.Join(got.errs, " "))
+	zzsym.Event("want-errors", strings.Join(want.Errors, " "))
+	zzsym.Assert(len(got.resps) == 1, "a plain operation yields exactly one response")
+	zzsym.Assert(got.data == want.Data, "data equals the reference execution")
+	if !sameStrings(got.errs, want.Errors) && sameErrors(got.errs, want.Errors) {
+		zzsym.Assert(false, "a null element of a non-null scalar list is reported at the element's path")
+	}
+	zzsym.Assert(sameErrors(got.errs, want.Errors), "one error per originating failure, at the failing position's path")
+	zzsym.Assert(w.recovers == 0, "the recover hook is not invoked when nothing panicked")
 	zzsym.Reach("c01.compared")
 }
